@@ -75,6 +75,13 @@ def parse_msg(text):
 def run_case(case_id, pre_abs, msg_abs, seed, keep_xml=False):
     """one spec transition against the real code -> event dict for the judge"""
     g = Gamma("%s|%s" % (seed, case_id))
+    # the same case, with its ids written in one of several styles (prefix-related, markup characters, case-only
+    # differences, inner blanks, long): a bijection on ids, so the specification's verdict is unaffected
+    from .render import ID_STYLES, id_style_map, restyle
+    style = g.rng("idstyle").choice(ID_STYLES)
+    if style != "plain":
+        f = id_style_map(style)
+        pre_abs, msg_abs = restyle(pre_abs, f), restyle(msg_abs, f)
     ro_xml = g.ro(pre_abs)
     msg_xml = g.msg(msg_abs)
     table = {}
